@@ -6,6 +6,10 @@ use crate::cases::ElemKind;
 use crate::runner::*;
 use proptest::prelude::*;
 
+fn giant_history(g: super::gianthist::GiantHist) -> History {
+    History { elem: ElemKind::U32, valid_only: false, ctor: history::Ctor::Default, ops: vec![], giant: Some(g) }
+}
+
 pub struct C01;
 impl Prop for C01 {
     type Case = History;
@@ -15,22 +19,33 @@ impl Prop for C01 {
     }
     fn strategy(tier: Tier) -> BoxedStrategy<History> {
         let n = if tier == Tier::Quick { 40 } else { 120 };
-        history::history(&[(6, ElemKind::Tr), (3, ElemKind::U32), (2, ElemKind::Zs), (1, ElemKind::U128), (1, ElemKind::B3)], 0.15, n, 0.0).boxed()
+        let small = history::history(&[(6, ElemKind::Tr), (3, ElemKind::U32), (2, ElemKind::Zs), (1, ElemKind::U128), (1, ElemKind::B3)], 0.15, n, 0.0);
+        let giant = super::gianthist::strategy(super::gianthist::Focus::All).prop_map(giant_history);
+        prop_oneof![24 => small, 1 => giant].boxed()
+    }
+    fn enumerate(_tier: Tier, emit: &mut dyn FnMut(History)) {
+        super::gianthist::enumerate(super::gianthist::Focus::All, &mut |g| emit(giant_history(g)));
     }
     fn random_cases(tier: Tier) -> u64 {
         if tier == Tier::Quick { 200_000 } else { 3_000_000 }
     }
     fn execute(case: &History, ctx: &mut Ctx) -> Verdict {
+        if let Some(g) = &case.giant {
+            return super::gianthist::exec_giant(g, super::gianthist::Focus::All, ctx);
+        }
         history::execute(case, Mode::Shape, ctx)
     }
     fn fuzz_sanitize(case: &mut History) -> bool {
         if case.elem == ElemKind::Bx {
             case.elem = ElemKind::Tr;
         }
+        if let Some(g) = &mut case.giant {
+            super::gianthist::sanitize(g);
+        }
         history::sanitize(case)
     }
     fn essential_classes() -> &'static [&'static str] {
-        &["passes-through-empty", "interleaves-axes", "has-rejected-call", "drain-partial", "regrows-from-empty", "op-in-window"]
+        &["passes-through-empty", "interleaves-axes", "has-rejected-call", "drain-partial", "regrows-from-empty", "op-in-window", "giant-unit-grid", "giant/growth-that-cannot-fit-panics", "giant/rejected-call", "giant/applied-insert-or-remove"]
     }
 }
 
@@ -55,6 +70,7 @@ impl Prop for C05 {
         if matches!(case.elem, ElemKind::U32 | ElemKind::U128 | ElemKind::B3) {
             case.elem = ElemKind::Bx;
         }
+        case.giant = None;
         history::sanitize(case)
     }
     fn essential_classes() -> &'static [&'static str] {
